@@ -47,8 +47,7 @@ namespace occa {
     if (!modeMemory) {
       return;
     }
-    modeMemory->removeMemoryRef(this);
-    if (modeMemory->modeMemory_t::needsFree()) {
+    if (modeMemory->removeMemoryRef(this)) {
       delete modeMemory;
       modeMemory = NULL;
     }
